@@ -11,8 +11,8 @@
    exit(a);enter(a') | reenter(a) | ...; quiet a l = no enter/exit/reenter in l and every view shows a active. *)
 From Coq Require Import List Arith Bool NArith.
 From FFSM2 Require Import Model.TaskList Model.BitArray Model.BitStream Model.Plan Model.Ancestors Model.Machine
-  Proofs.BitArrayProofs Proofs.MachineFrame Proofs.MachinePlan Proofs.MachineLife Proofs.GuardProofs Proofs.CycleProofs Proofs.PlanStep
-  Proofs.SerialProofs Proofs.LogProofs Proofs.MachineTop Model.Multi Generated.InitFacts Proofs.ConstructProofs Proofs.LifeMonitor Proofs.ActivationRounds Proofs.IndexSafety Proofs.FeatureProofs.
+  Proofs.BitArrayProofs Proofs.TaskListProofs Proofs.TaskListRun Proofs.PlanProofs Proofs.MachineFrame Proofs.MachinePlan Proofs.MachineLife Proofs.GuardProofs Proofs.CycleProofs Proofs.PlanStep
+  Proofs.SerialProofs Proofs.LogProofs Proofs.MachineTop Model.Multi Generated.InitFacts Proofs.ConstructProofs Proofs.LifeMonitor Proofs.ActivationRounds Proofs.IndexSafety Proofs.FeatureProofs Model.Script Proofs.Contract Proofs.Histories.
 Import ListNotations.
 
 (* at most SUBSTITUTION_LIMIT guard rounds per processing step, whatever the guards do *)
@@ -153,4 +153,57 @@ Theorem C04_activation_guard_evaluations :
            rg_count P l <= 1 + c_limit cfg.
 Proof. exact (initial_enter_guard_evals). Qed.
 Print Assumptions C04_activation_guard_evaluations.
+
+(* at any point of any history an immediate change uses at most SUBSTITUTION_LIMIT guard rounds and ends with exactly
+   one active state below n *)
+Theorem C04_every_immediate_change_of_every_history :
+  forall (P : Type) (cfg : config) (orc : oracle P),
+         wf_cfg cfg ->
+         wf_oracle P cfg orc ->
+         forall (lg : bool) (pre : list (api_op P)) (d : nat) (p : option P) (post : list (api_op P)),
+         let op := match p with
+                   | Some x => OImmChangeWith P d x
+                   | None => OImmChange P d
+                   end in
+         ops_ok P cfg orc (construct P cfg orc lg) (pre ++ op :: post) ->
+         let s := run P cfg orc lg pre in
+         let a := active P (co P s) in
+         let s0 := change_to P cfg d p s in
+         let rounds := loop_rounds P cfg orc (c_limit cfg) (t_empty P) s0 in
+         let surv := last_survivor P rounds in
+         let s' := run P cfg orc lg (pre ++ [op]) in
+         a < c_n cfg /\
+         d < c_n cfg /\
+         length rounds <= c_limit cfg /\
+         Inv P cfg s' /\
+         (if t_valid P surv
+          then active P (co P s') = t_dest P surv /\ t_dest P surv < c_n cfg
+          else active P (co P s') = a).
+Proof. exact (every_immediate_change_of_every_history). Qed.
+Print Assumptions C04_every_immediate_change_of_every_history.
+
+(* likewise every update()/react() of every history ends with one active state below n and the invariant restored *)
+Theorem C04_every_cycle_of_every_history :
+  forall (P : Type) (cfg : config) (orc : oracle P),
+         wf_cfg cfg ->
+         wf_oracle P cfg orc ->
+         forall (lg : bool) (pre : list (api_op P)) (op : api_op P) (post : list (api_op P))
+           (mpre mmid mpost : method),
+         ops_ok P cfg orc (construct P cfg orc lg) (pre ++ op :: post) ->
+         is_cycle_op P op = Some (mpre, mmid, mpost) ->
+         let s := run P cfg orc lg pre in
+         let a := active P (co P s) in
+         let s' := run P cfg orc lg (pre ++ [op]) in
+         a < c_n cfg /\
+         Inv P cfg s' /\
+         active P (co P s') < c_n cfg /\
+         (exists l_proc l_plan l_phase : list (event P),
+            tr P s' = l_proc ++ l_plan ++ l_phase ++ tr P s /\
+            delivs P cfg a
+              [(Root, mpre); (St a, mpre); (Root, mmid); (St a, mmid); (St a, mpost); (Root, mpost)] l_phase /\
+            Forall (kview P (mk_ctl P KFull (t_empty P) (t_empty P))) l_phase /\
+            Forall (plan_ev P cfg a) l_plan /\
+            (c_plans cfg = false -> l_plan = []) /\ life_shape P cfg a (active P (co P s')) l_proc).
+Proof. exact (every_cycle_of_every_history). Qed.
+Print Assumptions C04_every_cycle_of_every_history.
 
